@@ -23,7 +23,8 @@ def renderWV : WV → List Char
 def renderPiece (p : List Char × WV) : List Char := p.1 ++ renderWV p.2
 
 mutual
-/-- the values with the white space that precedes each of them -/
+/-- the values with the white space that precedes each of them (`/end` behind the end offset the writer uses:
+    `endOffOf`, i.e. 1 instead of 0 if `ends_in_line_comment` holds of the item's text) -/
 def pieces (top : Bool) (indent : Nat) : Gen → List (List Char × WV)
   | .none => []
   | .int w off v hex => [(addWhitespace indent off, .int w v hex)]
@@ -46,7 +47,9 @@ def piecesT (indent : Nat) : List (TItem Gen) → List (List Char × WV)
     (if it.isBlock then [(addWhitespace indent it.startOff, .begin_), ([' '], .ident it.tag)]
      else [(addWhitespace indent it.startOff, .ident it.tag)]) ++
     pieces true (indent + 1) it.data ++
-    (if it.isBlock then [(addWhitespace indent it.endOff, .end_), ([' '], .ident it.tag)] else []) ++
+    (if it.isBlock then
+      [(addWhitespace indent (endOffOf it.endOff (writeG true (indent + 1) it.data)), .end_), ([' '], .ident it.tag)]
+     else []) ++
     piecesT indent rest
 end
 
